@@ -4,7 +4,7 @@
 cd "$(dirname "$0")/.."
 J=${1:-4}
 one() {
-  d=$1; id=$(basename $d); prop=${id%%-*}
+  d=$(realpath $1); id=$(basename $d); prop=${id%%-*}
   S=/var/tmp/seedreg.$id.$$
   rm -rf $S; mkdir -p $S; cp -r /repo/src $S/src
   ( cd $S && patch -p1 -s < $d/patch.diff ) >/dev/null 2>&1 || { echo "$id PATCH-FAILED"; rm -rf $S; return; }
